@@ -881,6 +881,64 @@ type transT struct {
 
 // transMapTrace executes one transition enumerated by TLC from MastTrans.tla: reach the state (ascending inserts; in memory, or
 // persisted, or persisted and reopened), apply the operation, persist.
+// transFollowTrace (C02): the state of a TLC-enumerated transition is persisted and opened twice through one node cache; the
+// transition and two further edits run on one of the handles; the other handle, the retained root and the node objects in the
+// cache are looked at again after every call.
+func transFollowTrace(id int, seed int64, tr transT, out *json.Encoder) {
+	rng := rand.New(rand.NewSource(seed))
+	cfg := mapCfg{ID: id, Bf: uint(tr.BF), NK: len(tr.Layers), NV: 2, KT: "userkey", VT: []string{"int", "string", "intslice"}[rng.Intn(3)],
+		NF: []string{"bin", "v1"}[rng.Intn(2)], Cache: "large", Layers: tr.Layers, Src: "tlc-transition"}
+	r := newMapRun(cfg, rng, out)
+	r.reset()
+	r.exec(absOp{Op: "new", H: 1})
+	model := map[int]int{}
+	for _, k := range tr.Present {
+		r.exec(absOp{Op: "ins", H: 1, K: k, V: 1})
+		model[k] = 1
+	}
+	before := r.nextR
+	r.exec(absOp{Op: "root", H: 1})
+	if r.nextR == before {
+		return
+	}
+	root := r.nextR
+	if rng.Intn(2) == 0 {
+		// as after a restart: the cache did not witness the writes
+		r.watch.inner = mast.NewNodeCache(1000)
+	}
+	r.exec(absOp{Op: "load", G: 2, R: root, Cached: true})
+	r.exec(absOp{Op: "load", G: 3, R: root, Cached: true})
+	if _, ok := r.hs[2]; !ok {
+		return
+	}
+	switch tr.Op {
+	case "ins", "upd":
+		r.exec(absOp{Op: "ins", H: 2, K: tr.K, V: 2})
+		model[tr.K] = 2
+	case "del":
+		r.exec(absOp{Op: "del", H: 2, K: tr.K, V: 1})
+		delete(model, tr.K)
+	}
+	for i := 0; i < 2; i++ {
+		k := 1 + rng.Intn(cfg.NK)
+		if v, ok := model[k]; ok && rng.Intn(2) == 0 {
+			r.exec(absOp{Op: "del", H: 2, K: k, V: v})
+			delete(model, k)
+		} else {
+			v := 3 - model[k]
+			if !ok {
+				v = 1 + rng.Intn(2)
+			}
+			r.exec(absOp{Op: "ins", H: 2, K: k, V: v})
+			model[k] = v
+		}
+	}
+	if rng.Intn(2) == 0 {
+		r.exec(absOp{Op: "root", H: 2})
+	}
+	r.exec(absOp{Op: "iter", H: 3})
+}
+
 func transMapTrace(id int, seed int64, tr transT, out *json.Encoder) {
 	rng := rand.New(rand.NewSource(seed))
 	cfg := mapCfg{ID: id, Bf: uint(tr.BF), NK: len(tr.Layers), NV: 2, KT: "userkey", VT: []string{"int", "string"}[rng.Intn(2)],
